@@ -11,8 +11,9 @@ package cfedistributor
 
 //@ // ---- the distributor's block step (C03, C14, C18, C01, C10) ----
 //@ // what Params.Validate established for every configured sub-distributor, as far as the block step relies on it
-//@ pred subDistributorsUsable(sds) = forall i: int :: {sds[i].Name} 0 <= i && i < len(sds) ==>
-//@     destinationsValid(sds[i].Destinations) && destinationAccountsOK(sds[i].Destinations) && sourcesOK(sds[i].Sources)
+//@ // (exactly what SubDistributor.Validate is proved to establish - since the aliasing fix that includes "no module or base
+//@ // account is the distributor's own main account", which the payout and sweep contracts need)
+//@ pred subDistributorsUsable(sds) = forall i: int :: {sds[i].Name} 0 <= i && i < len(sds) ==> subDistributorValidated(sds[i])
 //@ func BeginBlocker(ctx, k)
 //@   requires subDistributorsUsable($distParams.SubDistributors)
 //@   requires forall d: str :: {$bal[MAIN()][d]} $bal[MAIN()][d] >= 0
